@@ -571,9 +571,13 @@ fn main() {
     // F6: long patterns: the 16-zero run encoding of the op stream, words up to 40 letters
     {
         let mut pats: Vec<String> = vec![];
-        let lens: Vec<usize> = ctx.pick(vec![14, 15, 16, 17, 18, 30, 31, 32, 33, 34], (1..=50).chain([62, 63]).collect());
+        let lens: Vec<usize> = ctx.pick(vec![14, 15, 16, 17, 18, 30, 31, 32, 33, 34], (1..=50).chain([60, 61, 62, 63]).collect());
         for &l in &lens {
-            for anchors in 0..4 {
+            for anchors in 0..4u32 {
+                // TeX §962 counts the dots among the 63 letters of a pattern
+                if l + anchors.count_ones() as usize > 63 {
+                    continue;
+                }
                 for d in ['1', '8', '9'] {
                     // one digit in each single slot
                     for slot in 0..=l {
@@ -610,7 +614,10 @@ fn main() {
         ctx.family("long-patterns", &format!("{} patterns a^L for L in {:?}: anchors x a digit from {{1,8,9}} in each single slot, at both ends, in the last two slots, and (L in 15,16,17,31,32,33) every pair of slots x words a^n, A^n, AaAa.. for n = 1..{maxw} and runs broken by one b", pats.len(), if lens.len() > 12 { vec![lens[0], *lens.last().unwrap()] } else { lens.clone() }), pats.len() as u64, |i, acc| {
             let cfg = Config { patterns: vec![pats[i as usize].clone()], ..Default::default() };
             let zero_run = {
-                let p = liang::parse_pattern(&cfg.patterns[0], &ascii_lc).unwrap();
+                let Ok(p) = liang::parse_pattern(&cfg.patterns[0], &ascii_lc) else {
+                    acc.skipped += 1;
+                    return;
+                };
                 let mut run = 0;
                 let mut best = 0;
                 for d in &p.digits {
